@@ -1,8 +1,10 @@
 package main
 
 import (
+	"context"
 	"errors"
 	"fmt"
+	"net/http"
 	"reflect"
 	"strings"
 
@@ -264,48 +266,69 @@ func firstLines(s string, n int) string {
 	return "\n " + strings.Join(keep, "\n ")
 }
 
+// headerOnlyFilter adds a response header and never fails.
+type headerOnlyFilter struct{}
+
+func (headerOnlyFilter) PreRequest(req *http.Request) (context.Context, error) {
+	return req.Context(), nil
+}
+
+func (headerOnlyFilter) PostRequest(ctx context.Context, h http.Header) error {
+	h.Set("X-Verif-Filter", "seen")
+	return nil
+}
+
 func partC08(a *hcli.Args, rep *report.Report, univName string, u *schema.Universe) {
 	s := rep.S("outcomes")
 	outs := outcomes(a.Gen)
 	s.Bounds = fmt.Sprintf("every method of every resource x %d implementation outcomes (value, overridden status, typed nil, ErrorResponse with every subset of %v, plain error, wrapped ErrorResponse, panic(string), panic(error))", len(outs), errFields)
-	w := NewWorld(u, DefaultConfig)
+	// the same outcomes on a server without filters and on one with a header-only filter (filters
+	// run around the method; they must not change what the caller is told)
+	worlds := []struct {
+		name string
+		w    *World
+	}{{"", NewWorld(u, DefaultConfig)}, {" filters=header-only", NewWorld(u, DefaultConfig, headerOnlyFilter{})}}
 	item := 0
-	for _, r := range u.Resources {
-		if len(r.ReadOnly)+len(r.CreateOnly) > 0 {
-			continue
-		}
-		for _, m := range r.Methods {
-			item++
-			if !a.Mine(item) {
+	for _, wd := range worlds {
+		w := wd.w
+		for _, r := range u.Resources {
+			if len(r.ReadOnly)+len(r.CreateOnly) > 0 {
 				continue
 			}
-			s.States++
-			for _, o := range outs {
-				kind, detail := checkOutcome(w, a.Gen, r, m, o)
-				if kind == "skip" {
+			for _, m := range r.Methods {
+				item++
+				if !a.Mine(item) {
 					continue
 				}
-				s.Evaluations++
-				s.Transitions++
-				s.Traces++
-				if kind != "" {
-					mk := m.Name
-					if m.Kind != "REST_METHOD" {
-						mk = strings.ToLower(m.Kind)
-						if m.Return != nil {
-							mk += "+result"
-						}
+				s.States++
+				for _, o := range outs {
+					kind, detail := checkOutcome(w, a.Gen, r, m, o)
+					if kind == "skip" {
+						continue
 					}
-					rep.Fail(fmt.Sprintf("%s status %s method=%s outcome=%s", a.Gen, kind, mk, o.name),
-						fmt.Sprintf("%s.%s, resource %s: %s%s", r.Name(), ClientMethod(m), o.name, detail, w.wireSummary()),
-						outcomeReplay{a.Gen, "C08", univName, r.Namespace, m.Name, o.name})
-					s.Class("fail:" + kind)
-				} else {
-					s.Class("ok:" + strings.SplitN(o.name, "{", 2)[0])
+					s.Evaluations++
+					s.Transitions++
+					s.Traces++
+					if kind != "" {
+						mk := m.Name
+						if m.Kind != "REST_METHOD" {
+							mk = strings.ToLower(m.Kind)
+							if m.Return != nil {
+								mk += "+result"
+							}
+						}
+						rep.Fail(fmt.Sprintf("%s status %s method=%s outcome=%s%s", a.Gen, kind, mk, o.name, wd.name),
+							fmt.Sprintf("%s.%s, resource %s: %s%s", r.Name(), ClientMethod(m), o.name, detail, w.wireSummary()),
+							outcomeReplay{a.Gen, "C08", univName, r.Namespace, m.Name, o.name})
+						s.Class("fail:" + kind)
+					} else {
+						s.Class("ok:" + strings.SplitN(o.name, "{", 2)[0])
+					}
 				}
 			}
 		}
 	}
+	w := worlds[0].w
 	// shared error object across sequential requests + per-key batch errors
 	if a.Shard == 0 {
 		sh := rep.S("shared-error-object")
